@@ -20,16 +20,18 @@ from harness import x03_gencfg as gc
 ADAPTER = "harness.adapters_x03:Adapter"
 UNK, BCAST, MCAST = 90, 91, 92
 
-QUICK_WORLDS = ["hubpro_T3_b2", "hubre_T2_b0", "hubre_Tri_b2", "pairs_T1_b2", "pairs_T2_b0", "pairs_T3_b2",
-                "pairs_T1s_b2", "multi_T1_b0", "multi_T1_b2", "multi_T1s_b2", "multi_T2_b1", "multi_T3_b2",
-                "multi_Tri_b2", "multi_Tri_b0"]
-STRICT_QUICK = ["multi_T1_b2", "multi_T2_b1", "multi_Tri_b0"]
-SIM_QUICK = [("pairs_T2_b2", 8), ("multi_T2_b1", 8), ("multi_Tri_b2", 8), ("multi_T1_b0", 6)]
-TRACE_QUICK = ["hubre_T2_b0", "pairs_T1_b2", "pairs_T2_b2", "multi_T1_b0", "multi_T2_b1", "multi_Tri_b2"]
+QUICK_WORLDS = ["hubpro_T3_b2", "hubre_T2_b0", "pairs_T1_b2", "pairs_T2_b0", "pairs_T3_b2",
+                "multi_T1_b0", "multi_T1s_b2", "multi_T2_b1", "multi_T2u_b1", "multi_T3_b2", "multi_Tri_b2",
+                "multi_TriR_b2"]
+STRICT_QUICK = ["multi_T2u_b1"]
+COVER_QUICK = "multi_T2u_b1"        # the run that carries TLC's own per-action coverage (expensive: one small world)
+SIM_QUICK = [("pairs_T2_b2", 5), ("multi_T2_b1", 5), ("multi_Tri_b2", 5)]
+TRACE_QUICK = ["hubre_T2_b0", "pairs_T2_b2", "multi_T1_b0", "multi_T2_b1", "multi_Tri_b2"]
 # spec cases (tags logged by the actions) that the exported behaviours of a tier must exercise
-NEED_TAGS = ["flow", "flood", "pair", "path", "lldp-drop", "unreach", "flood-unbuffered", "unreach-leak",
+NEED_TAGS = ["flow", "flood", "pair", "path", "repath", "lldp-drop", "unreach", "flood-unbuffered", "unreach-leak",
              "holddown-flood"]
-BASE_ACTIONS = {"hub_pro": ["SendAny"], "hub_re": ["SendAny"], "pairs": ["SendAny"], "multi": ["SendAny", "TickAny"]}
+NEED_ACTIONS = {"hub_pro": ["Send"], "hub_re": ["Send", "Move"], "pairs": ["Send", "Move"],
+                "multi": ["Send", "Tick", "Cut", "Restore", "Detect"]}
 
 
 def split(name):
@@ -67,11 +69,13 @@ def run(ctx):
   # ---- 1. TLC: model check + export (one run per world), strict models, simulations, deeper models
   jobs, kinds = [], []
   for n in worlds:
-    jobs.append(_job("MCX_%s.cfg" % n, workers=1, coverage=True))
+    jobs.append(_job("MCX_%s.cfg" % n, workers=1, coverage=False))
     kinds.append(("mcx", n))
   for n in (STRICT_QUICK if quick else [x for x in allw if x.startswith("multi")]):
     jobs.append(_job("MCS_%s_q.cfg" % n, workers=2, coverage=False))
     kinds.append(("strict", n))
+  jobs.append(_job("MC_%s_q.cfg" % COVER_QUICK, workers=2, coverage=True))
+  kinds.append(("cover", COVER_QUICK))
   sims = SIM_QUICK if quick else [(n, 60) for n in allw if not n.startswith("hub")]
   depth = 30 if quick else 80
   for k, (n, num) in enumerate(sims):
@@ -87,17 +91,26 @@ def run(ctx):
   phases = dict(tlc_s=round(time.time() - t0, 1))
   behs = {}          # world name -> behaviours
   tags = {}
+  acts_taken = {}
   for (kind, n), r in zip(kinds, res):
     if r.violated:
       raise tlc.TLCError("Forwarding.tla (%s %s) violates %s:\n%s" % (kind, n, r.violated, r.error_trace[:3000]))
     w, nb = split(n)
     if kind == "mcx":
-      tlc.require_coverage(r, BASE_ACTIONS[gc.WORLDS[w][0]], "MCX_" + n)
       b = r.tagged("T")
       if not b:
         raise tlc.TLCError("no behaviours exported by MCX_%s" % n)
+      comp = gc.WORLDS[w][0]
+      taken = set(x[-1]["a"] for x in b)           # every exported behaviour ends with a transition TLC generated
+      acts_taken.setdefault(comp, set()).update(taken)
+      if "Send" not in taken:
+        raise tlc.TLCError("vacuous model run MCX_%s: no Send transition" % n)
       behs.setdefault(n, []).extend(b)
       ctx.add_model("Forwarding %s: all states within %d steps, as built" % (n, gc.WORLDS[w][12]), r)
+    elif kind == "cover":
+      tlc.require_coverage(r, ["Send", "Cut", "Restore", "Detect"], "MC_%s_q" % n)
+      ctx.add_model("Forwarding %s: all states within %d steps, as built (with TLC's action coverage)"
+                    % (n, gc.WORLDS[w][13]), r)
     elif kind == "strict":
       ctx.add_model("Forwarding %s: documented intent (Strict = TRUE), %d steps" % (n, gc.WORLDS[w][13]), r)
     elif kind == "deep":
@@ -114,6 +127,10 @@ def run(ctx):
       for st in b:
         for t in st.get("tags", []):
           tags[t] = tags.get(t, 0) + 1
+  for comp, need in NEED_ACTIONS.items():
+    lack = [a for a in need if a not in acts_taken.get(comp, set())]
+    if lack:
+      raise tlc.TLCError("vacuous model runs for %s: actions never taken: %s" % (comp, lack))
   missing = [t for t in NEED_TAGS if not tags.get(t)]
   if missing:
     raise tlc.TLCError("vacuous: the exported behaviours never exercise the spec cases %s" % missing)
@@ -122,7 +139,7 @@ def run(ctx):
   # ---- 2. spec -> code
   from harness.adapters_x03 import norm_behaviour
   t0 = time.time()
-  cap = 260 if quick else None
+  cap = 200 if quick else None
   nvar = 2 if quick else 6
   per = {}
   neg = None
@@ -154,20 +171,10 @@ def run(ctx):
   ctx.notes["replay"] = per
   phases["replay_s"] = round(time.time() - t0, 1)
   # negative control of the replay: a falsified expectation must be reported as a mismatch
-  if neg is None:
+  if neg is None and not ctx.violations:
     raise core.Machinery("no behaviour available for the replay's negative control")
-  w, nb, variant, beh = neg
-  bad = copy.deepcopy(beh)
-  for s in bad:
-    if s["a"] == "Send" and s["exp"]["hops"] and s["exp"]["hops"][0]["out"]:
-      s["exp"]["hops"][0]["out"] = s["exp"]["hops"][0]["out"][:-1]
-      break
-  c2 = core.Context("X03", ctx.tier, ctx.seed, ctx.level, clear=False)
-  c2.known = []
-  stn = core.replay(c2, ADAPTER, [bad], params=dict(world=w, nbuf=nb, variant=variant), procs=1)
-  if stn["mismatch"] != 1:
-    raise core.Machinery("negative control of the replay (one port removed from an expectation) was not rejected")
-  ctx.notes["replay_negative_control_rejected"] = True
+  if neg is not None:
+    _replay_negative_control(ctx, neg)
 
   # ---- 3. code -> spec
   t0 = time.time()
@@ -210,7 +217,9 @@ def run(ctx):
   for n in sorted(by):
     r, rej, negs, nt = vres[n]
     ctx.add_model("TraceForwarding %s (validation of %d implementation executions)" % (n, nt), r)
-    if len(negs) < 2:
+    if len(negs) < 2 and not ctx.violations and not any(k in rej for k in range(nt)):
+      # (on a tree so broken that no execution of a world is well-formed there is nothing to corrupt; the
+      #  rejections themselves are the verdict then)
       raise tlc.TLCError("only %d negative controls could be built for %s" % (len(negs), n))
     for j, (kind, _) in enumerate(negs):
       if nt + j not in rej:
@@ -237,6 +246,23 @@ def run(ctx):
                                        negative_controls_rejected=negok)
   ctx.notes["phases"] = phases
   ctx.exhaustive = True
+
+
+def _replay_negative_control(ctx, neg):
+  """a falsified expectation must be reported as a mismatch"""
+  w, nb, variant, beh = neg
+  bad = copy.deepcopy(beh)
+  for s in bad:
+    if s["a"] == "Send" and s["exp"]["hops"] and s["exp"]["hops"][0]["out"]:
+      s["exp"]["hops"][0]["out"] = s["exp"]["hops"][0]["out"][:-1]
+      break
+  c2 = core.Context("X03", ctx.tier, ctx.seed, ctx.level, clear=False)
+  c2.known = []
+  stn = core.replay(c2, ADAPTER, [bad], params=dict(world=w, nbuf=nb, variant=variant), procs=1)
+  if stn["mismatch"] != 1:
+    raise core.Machinery("negative control of the replay (one port removed from an expectation) was not rejected")
+  ctx.notes["replay_negative_control_rejected"] = True
+
 
 
 def replay_one(ctx, rep):
@@ -313,7 +339,8 @@ def drive(item):
   w = World(item["world"], item["nbuf"], item["variant"])
   multi = t["comp"] == "multi"
   links = sorted(sorted([a + b, b + a])[0] for a, b in t["links"].items())
-  cuts = [tuple(c) for c in t["cuts"]]
+  cuts = t["cuts"]
+  cuts = [tuple(a + b) for a, b in cuts.items()] if isinstance(cuts, dict) else [tuple(c) for c in cuts]
   up = set(tuple(x) for x in links)
   adj = set(up)
   ends = set(t["links"].keys()) | set(t["links"].values())
